@@ -125,6 +125,8 @@ var c14Block8 = []uint16{0xFF, 0x00, 0x01, 0xFE}
 func runC14(r *engine.Run) {
 	r.Rule = "E2 + E1. Dynamic-channel bands (11): network states by explicit-state BFS over AddChannel(fresh,CFList range), AddChannel(fresh,6..6) (at most 4 additions) and Toggle(i) for every channel until the state set closes; in every distinct state every device channel subset of {0..n} (n = one index beyond the plan) is planned, applied by the independent device model (mc/spec/region.go ApplyLinkADR) and by the library's apply function. Full 16-channel plan (3/2 standard + custom) x 6 network patterns x all 2^16 device subsets. Fixed plans (US915, AU915: 72; CN470: 96): network set and device set each range over the product of per-block patterns (16-channel blocks: quick 4 / thorough 7 patterns; 500 kHz block: 4 patterns), network sets produced by real Disable/Enable calls in ascending and descending order. Obligations: result of applying = network-enabled channels the device can know; every payload encodable; #payloads <= ceil(plan/16)+1; nothing when the device matches; no panic. Non-trivial: a (network, device) pair for which the planner returned and the result was compared."
 	bandGetterHistory(r)
+	r.Rule += " E3 (schedules): one band object shared by three threads that plan LinkADRReq payloads for three devices concurrently (CN470 / US915 / EU868 with custom channels), every interleaving of the probes on receiver fields some method writes and of synchronisation operations (preemption-bounded and, with state-key pruning, unbounded); each plan must equal the plan made alone, no data race, no deadlock."
+	mergeSchedSummary(r, "C14")
 	r.Assume("device sets for the 72/96-channel plans are products of per-block patterns (2^144 is out of reach): the planner treats 16-channel blocks independently except for the count-based strategy choice, which the pattern product drives through every combination of block-level differences")
 	r.Assume("device indices are limited to what a conformant device can hold (< 16*ceil(plan/16)) plus, for dynamic plans, one index beyond the network's plan")
 
